@@ -27,16 +27,39 @@ func C16(run *report.Run) {
 	for _, set := range templateSets(2, 2, nil) {
 		rss = append(rss, routeState{mkTemplates(set, G, GP), none})
 	}
+	// quick: pairs that reach depth 3 (a static segment recurring deeper in the sibling's subtree and the
+	// like) without security and cors and with fewer stacks; thorough has them in full through d = 3
+	nFull := len(rss)
+	if run.Tier == "quick" {
+		for _, set := range templateSets(2, 3, nil) {
+			deep := false
+			for _, t := range set {
+				if len(refmodel.Segs(t)) == 3 {
+					deep = true
+				}
+			}
+			if deep {
+				rss = append(rss, routeState{mkTemplates(set, G, GP), none})
+			}
+		}
+	}
 	var states []BState
-	for _, rs := range rss {
+	for ri, rs := range rss {
+		reduced := ri >= nFull
 		for _, sec := range []bool{false, true} {
 			for _, cors := range []bool{false, true} {
 				rs, sec, cors := rs, sec, cors
 				if cors && run.Tier == "quick" && len(rs.ts) == 2 && !sec {
 					continue
 				}
+				if reduced && (sec || cors) {
+					continue
+				}
 				b := routeBState(rs, "C16", func(pl *drv.RoutePayload, g *genrun.Job) {
 					pl.Stacks = []int{0, 1, 2, 3, 4}
+					if reduced {
+						pl.Stacks = []int{0, 2}
+					}
 					pl.MaxDepth = 3
 					pl.Prefixes = []string{rs.base.Want}
 					pl.Methods = []string{"GET", "POST", "DELETE"}
